@@ -94,6 +94,23 @@ class _Spell(ast.NodeTransformer):
     def visit_ListComp(self, n):
         return self._unroll(n, lambda e: ast.List(elts=e, ctx=ast.Load()))
 
+    def visit_Assign(self, n):
+        """X[:b:-1] = V  ->  X[b + 1:] = np.flip(V, axis=0)   and   X[::-1] = V  ->  X[:] = np.flip(V, axis=0)
+        (a store through a reversed view, first axis, b a name or a non-negative literal, V not a scalar literal)"""
+        self.generic_visit(n)
+        if len(n.targets) == 1 and isinstance(n.targets[0], ast.Subscript) and isinstance(n.targets[0].slice, ast.Slice) and \
+                not isinstance(n.value, ast.Constant):
+            sl = n.targets[0].slice
+            if sl.lower is None and isinstance(sl.step, ast.UnaryOp) and isinstance(sl.step.op, ast.USub) and isinstance(sl.step.operand, ast.Constant) \
+                    and sl.step.operand.value == 1 and (sl.upper is None or isinstance(sl.upper, ast.Name) or
+                                                        (isinstance(sl.upper, ast.Constant) and isinstance(sl.upper.value, int) and sl.upper.value >= 0)):
+                lower = None if sl.upper is None else ast.BinOp(left=sl.upper, op=ast.Add(), right=ast.Constant(value=1))
+                tgt = ast.Subscript(value=n.targets[0].value, slice=ast.Slice(lower=lower, upper=None, step=None), ctx=ast.Store())
+                val = ast.Call(func=ast.Attribute(value=ast.Name(id="np", ctx=ast.Load()), attr="flip", ctx=ast.Load()), args=[n.value],
+                               keywords=[ast.keyword(arg="axis", value=ast.Constant(value=0))])
+                return ast.fix_missing_locations(ast.copy_location(ast.Assign(targets=[tgt], value=val), n))
+        return n
+
     def visit_Expr(self, n):
         """np.subtract(A, B, out=X[s])  as a statement  ->  X[s] = A - B   (likewise add, multiply, divide): what the ufunc writes"""
         v = n.value
@@ -521,12 +538,36 @@ def _cand(call, ctx, cls, selfname):
     return r is not None and _inlinable(r[0])
 
 
-def _inline(call, how, targets, ctx, cls, selfname, like, depth):
+def _is_cm(fn):
+    """a @contextmanager generator with exactly one yield, at the top level of its body or alone in the body of a top-level try"""
+    if len(fn.decorator_list) != 1 or ast.unparse(fn.decorator_list[0]).split(".")[-1] != "contextmanager":
+        return False
+    a = fn.args
+    if a.vararg or a.kwarg or a.kwonlyargs or a.posonlyargs:
+        return False
+    ys = [n for n in ast.walk(fn) if isinstance(n, (ast.Yield, ast.YieldFrom))]
+    if len(ys) != 1 or not isinstance(ys[0], ast.Yield):
+        return False
+    for n in ast.walk(fn):
+        if isinstance(n, (ast.Return, ast.Global, ast.Nonlocal, ast.Lambda, ast.Await)) or (isinstance(n, (ast.FunctionDef, ast.ClassDef)) and n is not fn):
+            return False
+    for st in fn.body:
+        if isinstance(st, ast.Expr) and st.value is ys[0]:
+            return True
+        if isinstance(st, ast.Try) and len(st.body) == 1 and isinstance(st.body[0], ast.Expr) and st.body[0].value is ys[0]:
+            return True
+    return False
+
+
+def _inline(call, how, targets, ctx, cls, selfname, like, depth, with_body=None):
     r = _resolve_helper(call, ctx, cls, selfname)
     if r is None:
         return None
     fn, is_method = r
-    if not _inlinable(fn):
+    if how == "with":
+        if not _is_cm(fn):
+            return None
+    elif not _inlinable(fn):
         return None
     b = _bind_call(fn, call, is_method)
     if b is None:
@@ -582,6 +623,25 @@ def _inline(call, how, targets, ctx, cls, selfname, like, depth):
         body = [_Rename(direct).visit(s_) for s_ in body]
         same = same | {p for p in b if table[p] in direct}
     binds = [_assign([_name(table[p], ast.Store(), like)], copy.deepcopy(v), like) for p, v in b.items() if p not in same]
+    if how == "with":
+        # N20  with cm(args) as x: BODY   ->   <cm before its yield>; x = <yielded>; BODY; <cm after its yield>
+        # (a try around the yield goes around `x = ...; BODY`): what contextlib.contextmanager runs, on the normal and the raising path
+        k = [i for i, st in enumerate(body) if any(isinstance(n, ast.Yield) for n in ast.walk(st))][0]
+        y = body[k]
+        ynode = y.value if isinstance(y, ast.Expr) else y.body[0].value
+        first = []
+        if targets is not None and ynode.value is not None:
+            first = [_assign([targets], ynode.value, like)]
+        elif ynode.value is not None and not isinstance(ynode.value, (ast.Name, ast.Constant, ast.Attribute)):
+            first = [ast.copy_location(ast.Expr(value=ynode.value), like)]
+        if isinstance(y, ast.Expr):
+            mid = first + list(with_body)
+        else:
+            y.body = first + list(with_body)
+            mid = [y]
+        stmts = binds + body[:k] + mid + body[k + 1:]
+        stmts = [ast.fix_missing_locations(s_) for s_ in stmts]
+        return _block(stmts, ctx, cls, selfname, depth + 1)
     if how == "return":
         stmts = binds + body
         if not (body and isinstance(body[-1], ast.Return)):
@@ -605,6 +665,12 @@ def _stmt(st, ctx, cls, selfname, depth):
         h.body = _block(h.body, ctx, cls, selfname, depth)
     if isinstance(st, (ast.FunctionDef, ast.ClassDef)):
         return [st]
+    if isinstance(st, ast.With) and len(st.items) == 1 and isinstance(st.items[0].context_expr, ast.Call) and depth < 4 and \
+            (ctx.funcs or ctx.classes or ctx.foreign or ctx.mod_alias) and \
+            (st.items[0].optional_vars is None or isinstance(st.items[0].optional_vars, ast.Name)):
+        got = _inline(st.items[0].context_expr, "with", st.items[0].optional_vars, ctx, cls, selfname, st, depth, with_body=st.body)
+        if got is not None:
+            return got
     simple = isinstance(st, (ast.Assign, ast.AugAssign, ast.AnnAssign, ast.Expr, ast.Return))
     header = st if simple else (getattr(st, "test", None) if isinstance(st, ast.If) else (getattr(st, "iter", None) if isinstance(st, ast.For) else None))
     if header is None:
@@ -989,11 +1055,310 @@ def _property_objects(tree):
         c.body = new
 
 
+class _Setattr(ast.NodeTransformer):
+    """setattr(X, 'name', V) as a statement -> X.name = V"""
+    def visit_Expr(self, n):
+        v = n.value
+        if isinstance(v, ast.Call) and isinstance(v.func, ast.Name) and v.func.id == "setattr" and len(v.args) == 3 and not v.keywords and \
+                isinstance(v.args[1], ast.Constant) and isinstance(v.args[1].value, str) and v.args[1].value.isidentifier():
+            t = ast.Attribute(value=v.args[0], attr=v.args[1].value, ctx=ast.Store())
+            return ast.fix_missing_locations(ast.copy_location(ast.Assign(targets=[t], value=v.args[2]), n))
+        return n
+
+
+def _descriptor_objects(tree):
+    """N21  class C: x = D(lit, ...)  with D a class of this module that defines __get__ (and maybe __set__) and whose __init__ only stores
+    its arguments  ->  @property def x(self): <D.__get__ with the stored arguments written in>  (and @x.setter ... from D.__set__):
+    what attribute access through the descriptor executes.  getattr / setattr with the literal names become plain attribute access."""
+    classes = {c.name: c for c in tree.body if isinstance(c, ast.ClassDef)}
+
+    def fields_of(D, call):
+        init = next((m for m in D.body if isinstance(m, ast.FunctionDef) and m.name == "__init__"), None)
+        if init is None:
+            return {} if not (call.args or call.keywords) else None
+        b = _bind_call(init, call, True)
+        if b is None:
+            return None
+        me = init.args.args[0].arg
+        out = {}
+        for st in init.body:
+            if isinstance(st, ast.Expr) and isinstance(st.value, ast.Constant):
+                continue
+            if isinstance(st, ast.Assign) and len(st.targets) == 1 and isinstance(st.targets[0], ast.Attribute) and \
+                    isinstance(st.targets[0].value, ast.Name) and st.targets[0].value.id == me:
+                v = st.value
+                if isinstance(v, ast.Name) and v.id in b:
+                    v = b[v.id]
+                if not isinstance(v, ast.Constant):
+                    return None
+                out[st.targets[0].attr] = v
+            else:
+                return None
+        return out
+
+    def method_from(D, mname, fields, xname, like):
+        m = next((f for f in D.body if isinstance(f, ast.FunctionDef) and f.name == mname), None)
+        if m is None or len(m.args.args) < 2 or m.args.vararg or m.args.kwarg:
+            return None
+        me, obj = m.args.args[0].arg, m.args.args[1].arg
+        body = [copy.deepcopy(st) for st in m.body if not (isinstance(st, ast.Expr) and isinstance(st.value, ast.Constant))]
+
+        body = [_Rename({me: "__desc__"}).visit(st) for st in body]
+        me = "__desc__"
+
+        class Sub(ast.NodeTransformer):
+            def visit_Attribute(self, n):
+                self.generic_visit(n)
+                if isinstance(n.value, ast.Name) and n.value.id == me and isinstance(n.ctx, ast.Load):
+                    if n.attr in fields:
+                        return ast.copy_location(ast.Constant(value=fields[n.attr].value), n)
+                    if n.attr == "name" or n.attr.endswith("_name"):
+                        return ast.copy_location(ast.Constant(value=xname), n)
+                return n
+
+            def visit_Name(self, n):
+                if n.id == obj:
+                    return ast.copy_location(ast.Name(id="self", ctx=n.ctx), n)
+                return n
+        body = [Sub().visit(st) for st in body]
+        # instance access: `if obj is None: return <the descriptor>` never happens
+        body = [st for st in body if not (isinstance(st, ast.If) and isinstance(st.test, ast.Compare) and isinstance(st.test.left, ast.Name) and
+                                          st.test.left.id == "self" and len(st.test.ops) == 1 and isinstance(st.test.ops[0], ast.Is) and
+                                          isinstance(st.test.comparators[0], ast.Constant) and st.test.comparators[0].value is None and not st.orelse)]
+        body = [_Setattr().visit(_Getattr().visit(st)) for st in body]
+        if any(isinstance(n, ast.Name) and n.id == me for st in body for n in ast.walk(st)):
+            return None
+        if mname == "__get__":
+            args = ast.arguments(posonlyargs=[], args=[ast.arg(arg="self")], vararg=None, kwonlyargs=[], kw_defaults=[], kwarg=None, defaults=[])
+            deco = [ast.Name(id="property", ctx=ast.Load())]
+        else:
+            if len(m.args.args) != 3:
+                return None
+            args = ast.arguments(posonlyargs=[], args=[ast.arg(arg="self"), ast.arg(arg=m.args.args[2].arg)], vararg=None, kwonlyargs=[], kw_defaults=[],
+                                 kwarg=None, defaults=[])
+            deco = [ast.Attribute(value=ast.Name(id=xname, ctx=ast.Load()), attr="setter", ctx=ast.Load())]
+        fn = ast.FunctionDef(name=xname, args=args, body=body or [ast.Pass()], decorator_list=deco, returns=None)
+        for n in ast.walk(fn):
+            n.lineno = n.end_lineno = like.lineno
+            n.col_offset = n.end_col_offset = like.col_offset
+        return fn
+    converted = set()
+    for c in tree.body:
+        if not isinstance(c, ast.ClassDef):
+            continue
+        made = {}
+        new = []
+        for st in c.body:
+            if isinstance(st, ast.Assign) and len(st.targets) == 1 and isinstance(st.targets[0], ast.Name):
+                x = st.targets[0].id
+                src = None
+                if isinstance(st.value, ast.Call) and isinstance(st.value.func, ast.Name) and st.value.func.id in classes and \
+                        any(isinstance(m, ast.FunctionDef) and m.name == "__get__" for m in classes[st.value.func.id].body):
+                    D = classes[st.value.func.id]
+                    f = fields_of(D, st.value)
+                    if f is not None:
+                        src = (D, f)
+                elif isinstance(st.value, ast.Name) and st.value.id in made:
+                    src = made[st.value.id]
+                if src is not None:
+                    D, f = src
+                    g = method_from(D, "__get__", f, x, st)
+                    sset = method_from(D, "__set__", f, x, st) if any(isinstance(m, ast.FunctionDef) and m.name == "__set__" for m in D.body) else None
+                    has_set = any(isinstance(m, ast.FunctionDef) and m.name == "__set__" for m in D.body)
+                    if g is not None and (sset is not None or not has_set):
+                        made[x] = src
+                        new.append(g)
+                        if sset is not None:
+                            # a __set__ that only raises is a read-only attribute: no setter
+                            if not (len(sset.body) == 1 and isinstance(sset.body[0], ast.Raise)):
+                                new.append(sset)
+                        continue
+            new.append(st)
+        c.body = new
+        converted.update(D_.name for D_, _ in made.values())
+    # a descriptor class every use of which has been written out is no longer part of the program
+    for dn in converted:
+        D = classes[dn]
+        left = [n for st in tree.body if st is not D for n in ast.walk(st) if isinstance(n, ast.Name) and n.id == dn]
+        if not left:
+            tree.body = [st for st in tree.body if st is not D]
+    ast.fix_missing_locations(tree)
+
+
+def _partials(tree):
+    """N22  X = functools.partial(F, a.., k=v..) bound once (at module level or in one function)  ->  every call X(b.., j=w..) is
+    F(a.., b.., k=v.., j=w..): what the partial object calls"""
+    def is_partial(v):
+        return isinstance(v, ast.Call) and ast.unparse(v.func) in ("functools.partial", "partial") and v.args and \
+            not any(isinstance(a, ast.Starred) for a in v.args) and not any(k.arg is None for k in v.keywords)
+
+    def rewrite(scope_nodes, defs):
+        class T(ast.NodeTransformer):
+            def visit_Call(self, n):
+                self.generic_visit(n)
+                if isinstance(n.func, ast.Name) and n.func.id in defs and not any(k.arg is None for k in n.keywords):
+                    p_ = defs[n.func.id]
+                    kws = {k.arg: k.value for k in p_.keywords}
+                    kws.update({k.arg: k.value for k in n.keywords})
+                    return ast.copy_location(ast.Call(func=copy.deepcopy(p_.args[0]), args=[copy.deepcopy(a) for a in p_.args[1:]] + list(n.args),
+                                                      keywords=[ast.keyword(arg=k, value=copy.deepcopy(v)) for k, v in kws.items()]), n)
+                return n
+        for node in scope_nodes:
+            T().visit(node)
+    counts = {}
+    for n in ast.walk(tree):
+        if isinstance(n, ast.Name) and isinstance(n.ctx, (ast.Store, ast.Del)):
+            counts[n.id] = counts.get(n.id, 0) + 1
+    mod_defs = {st.targets[0].id: st.value for st in tree.body if isinstance(st, ast.Assign) and len(st.targets) == 1 and
+                isinstance(st.targets[0], ast.Name) and is_partial(st.value) and counts.get(st.targets[0].id) == 1}
+    if mod_defs:
+        rewrite([st for st in tree.body if not (isinstance(st, ast.Assign) and isinstance(st.targets[0], ast.Name) and st.targets[0].id in mod_defs)],
+                mod_defs)
+    for fn in [n for n in ast.walk(tree) if isinstance(n, ast.FunctionDef)]:
+        fc = {}
+        for n in ast.walk(fn):
+            if isinstance(n, ast.Name) and isinstance(n.ctx, (ast.Store, ast.Del)):
+                fc[n.id] = fc.get(n.id, 0) + 1
+        defs = {st.targets[0].id: st.value for st in ast.walk(fn) if isinstance(st, ast.Assign) and len(st.targets) == 1 and
+                isinstance(st.targets[0], ast.Name) and is_partial(st.value) and fc.get(st.targets[0].id) == 1 and
+                st.targets[0].id not in {a.arg for a in fn.args.args}}
+        if defs:
+            rewrite(fn.body, defs)
+    ast.fix_missing_locations(tree)
+
+
+def _match_statements(tree):
+    """N19  match S: case <literals joined by |> [if g]: A ... case _: Z   ->   if S == a or S == b [and g]: A  elif ...: else: Z
+    (value patterns compare with ==, None / True / False with `is`, exactly as the match statement does; a bare capture name binds the
+    subject; any other pattern kind leaves the statement alone)"""
+    class T(ast.NodeTransformer):
+        def __init__(self):
+            self.k = 0
+
+        def test_of(self, pat, subj):
+            if isinstance(pat, ast.MatchValue) and isinstance(pat.value, (ast.Constant, ast.Attribute, ast.UnaryOp)):
+                return ast.Compare(left=copy.deepcopy(subj), ops=[ast.Eq()], comparators=[pat.value])
+            if isinstance(pat, ast.MatchSingleton):
+                return ast.Compare(left=copy.deepcopy(subj), ops=[ast.Is()], comparators=[ast.Constant(value=pat.value)])
+            if isinstance(pat, ast.MatchOr):
+                ts = [self.test_of(p_, subj) for p_ in pat.patterns]
+                if any(t is None for t in ts):
+                    return None
+                return ast.BoolOp(op=ast.Or(), values=ts)
+            return None
+
+        def visit_Match(self, n):
+            self.generic_visit(n)
+            pre = []
+            subj = n.subject
+            if not isinstance(subj, (ast.Name, ast.Attribute)):
+                self.k += 1
+                nm = "_subject__%d" % self.k
+                pre.append(ast.Assign(targets=[ast.Name(id=nm, ctx=ast.Store())], value=subj))
+                subj = ast.Name(id=nm, ctx=ast.Load())
+            chain = []
+            for c in n.cases:
+                if isinstance(c.pattern, ast.MatchAs) and c.pattern.pattern is None:
+                    body = list(c.body)
+                    if c.pattern.name is not None:
+                        body = [ast.Assign(targets=[ast.Name(id=c.pattern.name, ctx=ast.Store())], value=copy.deepcopy(subj))] + body
+                    if c.guard is not None:
+                        return n            # a guarded catch-all: not handled
+                    chain.append((None, body))
+                    break
+                t = self.test_of(c.pattern, subj)
+                if t is None:
+                    return n
+                if c.guard is not None:
+                    t = ast.BoolOp(op=ast.And(), values=[t, c.guard])
+                chain.append((t, list(c.body)))
+            node = None
+            for t, body in reversed(chain):
+                if t is None:
+                    node = body
+                else:
+                    node = [ast.If(test=t, body=body, orelse=node or [])]
+            out = pre + (node or [ast.Pass()])
+            return [ast.fix_missing_locations(ast.copy_location(x, n)) for x in out]
+    T().visit(tree)
+    ast.fix_missing_locations(tree)
+
+
+def _record_classes(tree):
+    """N18  record types become plain classes with the constructor they generate (attribute access only; indexing / unpacking such an
+    object is left to the interpreter, which says it does not model it):
+        X = namedtuple('X', ['a', 'b'])            ->  class X: def __init__(self, a, b): self.a = a; self.b = b
+        class Y(namedtuple('Y', 'a b')): <body>    ->  class Y: def __init__(self, a, b): ...; <body>
+        @dataclass class Z: a: T; b: T = d         ->  class Z: def __init__(self, a, b=d): ...; <rest of body>"""
+    nt_names = {"namedtuple"}
+
+    def nt_fields(call):
+        if not (isinstance(call, ast.Call) and ast.unparse(call.func).split(".")[-1] in nt_names and len(call.args) >= 2):
+            return None
+        f = call.args[1]
+        if isinstance(f, ast.Constant) and isinstance(f.value, str):
+            return f.value.replace(",", " ").split()
+        if isinstance(f, (ast.List, ast.Tuple)) and all(isinstance(e, ast.Constant) and isinstance(e.value, str) for e in f.elts):
+            return [e.value for e in f.elts]
+        return None
+
+    def init_for(fields, defaults, like):
+        args = ast.arguments(posonlyargs=[], args=[ast.arg(arg="self")] + [ast.arg(arg=f) for f in fields], vararg=None, kwonlyargs=[],
+                             kw_defaults=[], kwarg=None, defaults=defaults)
+        body = [ast.Assign(targets=[ast.Attribute(value=ast.Name(id="self", ctx=ast.Load()), attr=f, ctx=ast.Store())],
+                           value=ast.Name(id=f, ctx=ast.Load())) for f in fields] or [ast.Pass()]
+        fn = ast.FunctionDef(name="__init__", args=args, body=body, decorator_list=[], returns=None)
+        for n in ast.walk(fn):
+            n.lineno = n.end_lineno = like.lineno
+            n.col_offset = n.end_col_offset = like.col_offset
+        return fn
+    nts = {}
+    new = []
+    for st in tree.body:
+        if isinstance(st, ast.ImportFrom) and st.module in ("collections", "typing"):
+            for al in st.names:
+                if al.name in ("namedtuple", "NamedTuple") and al.asname:
+                    nt_names.add(al.asname)
+    for st in tree.body:
+        if isinstance(st, ast.Assign) and len(st.targets) == 1 and isinstance(st.targets[0], ast.Name) and nt_fields(st.value) is not None:
+            fields = nt_fields(st.value)
+            nts[st.targets[0].id] = fields
+            c = ast.ClassDef(name=st.targets[0].id, bases=[], keywords=[], body=[init_for(fields, [], st)], decorator_list=[])
+            new.append(ast.fix_missing_locations(ast.copy_location(c, st)))
+            continue
+        if isinstance(st, ast.ClassDef):
+            fields = None
+            for b in list(st.bases):
+                f = nt_fields(b) if isinstance(b, ast.Call) else (nts.get(b.id) if isinstance(b, ast.Name) else None)
+                if f is not None and not any(isinstance(m, ast.FunctionDef) and m.name in ("__init__", "__new__") for m in st.body):
+                    fields = f
+                    st.bases.remove(b)
+            if fields is None and any(ast.unparse(d).split("(")[0].split(".")[-1] == "dataclass" for d in st.decorator_list) and \
+                    not any(isinstance(m, ast.FunctionDef) and m.name == "__init__" for m in st.body):
+                anns = [m for m in st.body if isinstance(m, ast.AnnAssign) and isinstance(m.target, ast.Name)]
+                fields = [m.target.id for m in anns]
+                defaults = [m.value for m in anns if m.value is not None]
+                st.decorator_list = [d for d in st.decorator_list if ast.unparse(d).split("(")[0].split(".")[-1] != "dataclass"]
+                st.body = [init_for(fields, defaults, st)] + [m for m in st.body if m not in anns]
+                ast.fix_missing_locations(st)
+                fields = None
+            if fields is not None:
+                st.body = [init_for(fields, [], st)] + [m for m in st.body if not (isinstance(m, ast.Assign) and any(
+                    isinstance(t, ast.Name) and t.id == "__slots__" for t in m.targets))]
+                ast.fix_missing_locations(st)
+        new.append(st)
+    tree.body = new
+
+
 def normalise_module(tree, modname, foreign=None, mod_alias=None):
     if os.environ.get("VERIF_NO_NORMALISE") == "1":
         return tree
     tree = ast.fix_missing_locations(_Spell().visit(tree))
+    _partials(tree)
     _property_objects(tree)
+    _descriptor_objects(tree)
+    _match_statements(tree)
+    _record_classes(tree)
     pin = pinned()
     funcs, classes = {}, {}
     for n in tree.body:
